@@ -15,8 +15,10 @@ func init() {
 			Calls: []string{"unmarshalFromJSONOrYAML", "ValidateOperationSpec", "NewFromOperationSpec", "Append", "ErrorOrNil"}},
 		skelTarget{Name: "object_patch.unmarshalFromJSONOrYAML", File: "pkg/kube/object_patch/helpers.go", Recv: "", Func: "unmarshalFromJSONOrYAML",
 			Calls: []string{"unmarshalFromJson", "unmarshalFromYaml"}},
+		skelTarget{Name: "object_patch.unmarshalFromJson", File: "pkg/kube/object_patch/helpers.go", Recv: "", Func: "unmarshalFromJson",
+			Calls: []string{"Decode", "Unmarshal", "checkKnownField"}},
 		skelTarget{Name: "object_patch.unmarshalFromYaml", File: "pkg/kube/object_patch/helpers.go", Recv: "", Func: "unmarshalFromYaml",
-			Calls: []string{"Decode", "normalizeFreeFormFields"}},
+			Calls: []string{"Decode", "checkKnownField", "normalizeFreeFormFields"}},
 		skelTarget{Name: "ObjectPatcher.ExecuteOperations", File: "pkg/kube/object_patch/patch.go", Recv: "ObjectPatcher", Func: "ExecuteOperations",
 			Calls: []string{"ExecuteOperation", "Append", "ErrorOrNil"}},
 		skelTarget{Name: "ObjectPatcher.ExecuteOperation", File: "pkg/kube/object_patch/patch.go", Recv: "ObjectPatcher", Func: "ExecuteOperation",
